@@ -62,6 +62,20 @@ def special_cases(first_id):
                                               "dport": ([80, 9200][c % 2] if (c + 1) in gone or (sid + c) % 2 else UNDECODED[c % len(UNDECODED)])}
                                              for c in range(nconn)], "frames": fr})
             sid += 1
+    # the handler's reader and the receive loop (AgentConn.tla, the same protocol as the agent tunnel's connections): the
+    # first pushed segment arrives while the handler is between finding its buffer empty and starting to wait (held there
+    # through hook canary.VerifSocketGap); it must still be reported
+    for k, (n1, n2) in enumerate([(0, 7), (0, 1460), (5, 3), (0, 1)]):
+        fr = [F(1, "syn"), F(1, "ack")]
+        if n1:
+            fr.append(F(1, "data", n1, False))              # not pushed: stays in the buffer, nobody is told
+        fr.append(dict(F(1, "data", n2, True), at="gap"))
+        fr.append(F(1, "fin"))
+        out.append({"id": sid, "conns": [{"isn": ISNS[k % len(ISNS)], "cip": "10.0.1.%d" % (40 + k), "cport": 4100 + k, "dport": UNDECODED[k % len(UNDECODED)]}], "frames": fr})
+        sid += 1
+    # ... and with a second connection going on meanwhile
+    fr = [F(1, "syn"), F(2, "syn"), F(1, "ack"), F(2, "ack"), F(2, "data", 9, True), dict(F(1, "data", 11, True), at="gap"), F(2, "fin"), F(1, "fin")]
+    out.append({"id": sid, "conns": [{"isn": 7, "cip": "10.0.1.50", "cport": 4200, "dport": UNDECODED[0]}, {"isn": 9, "cip": "10.0.1.51", "cport": 4200, "dport": UNDECODED[0]}], "frames": fr})
     return out
 
 
